@@ -544,10 +544,11 @@ func sshSanitizeFilePath(sandboxDir, filePath string) (string, error) {
 
 	// Ensure the resolved path is within the sandbox directory
 	cleanedSandbox := filepath.Clean(sandboxDir)
-	if cleaned == cleanedSandbox {
+	rel, err := filepath.Rel(cleanedSandbox, cleaned)
+	if err == nil && rel == "." {
 		return "", fmt.Errorf("path %q resolves to the sandbox directory itself %q", filePath, sandboxDir)
 	}
-	if !strings.HasPrefix(cleaned, cleanedSandbox+string(filepath.Separator)) {
+	if err != nil || !filepath.IsLocal(rel) {
 		return "", fmt.Errorf("path %q is outside the sandbox directory %q", filePath, sandboxDir)
 	}
 
